@@ -1,11 +1,44 @@
-"""Thorough tier: the quick obligations plus whatever deeper exploration exists for the property
-(longer solver budgets, bounded stand-ins, mutation self-test).  Filled in per property."""
+"""Thorough tier: the quick obligations plus
+  * the vacuity covers (ujvc/units.py: every path condition with quantified assumptions has a finite-scope model),
+  * the bounded stand-ins at their large bounds (contracts/system.py: 6000 histories x 3 seeds; engine stress under adversarial schedules),
+  * the Lean lemma file,
+  * the mutation self-test for the property's own mutants (selftest/corpus.json): each change is applied to a scratch copy of /repo/src
+    outside /repo and /verif and must be flagged by this property's check; a change that is NOT flagged is reported as a weakness of the
+    machinery in the evidence (mutation_selftest) and on stdout - it is not a violation of the property.
+"""
+import json
+import os
+import sys
+
 from . import check
 
 
 def check_thorough(pid, seed=0, jobs=None):
-    import os
-
     os.environ["UJVC_TIER"] = "thorough"
     rc = check.check_property(pid, tier="thorough", seed=seed, jobs=jobs)
+    if os.environ.get("UJVC_REPO_SRC"):
+        return rc  # never nest self-tests
+    sys.path.insert(0, os.path.join(check.VERIF, "tools"))
+    import selftest
+
+    corpus = json.load(open(os.path.join(check.VERIF, "selftest", "corpus.json")))["mutants"]
+    mine = [dict(m, breaks=[pid]) for m in corpus if pid in m["breaks"]]
+    from concurrent.futures import ThreadPoolExecutor
+
+    with ThreadPoolExecutor(8) as ex:
+        results = list(ex.map(selftest.run_one, mine))
+    summary = []
+    for r in results:
+        v = r.get("verdicts", {}).get(pid, {"verdict": "error", "failed_obligations": []})
+        summary.append({"mutant": r["id"], "verdict": v["verdict"], "failed_obligations": v.get("failed_obligations", [])[:3]})
+        if v["verdict"] != "detected":
+            print(f"SELFTEST: property={pid} change {r['id']} was not flagged ({v['verdict']}) - weakness of the machinery, not a violation")
+    path = os.path.join(check.EVID, f"{pid}.json")
+    try:
+        doc = json.load(open(path))
+        doc["coverage"]["mutation_selftest"] = {"mutants": len(summary), "detected": sum(1 for s in summary if s["verdict"] == "detected"), "results": summary}
+        json.dump(doc, open(path, "w"), indent=1)
+    except FileNotFoundError:
+        pass
+    print(f"selftest property={pid}: {sum(1 for s in summary if s['verdict'] == 'detected')}/{len(summary)} seeded changes flagged")
     return rc
